@@ -153,6 +153,44 @@ def _case_h2(rng, tier, n):
     }
 
 
+def _case_h2_late_data(rng, tier, n):
+    """Applications that answer before their body arrives keep receiving (ignored) DATA; a later upload on the same
+    connection by a flow-control-abiding client must still be delivered in full."""
+    fb = FrameBuilder()
+    rspec = {"kind": "h2", "credit": "auto", "uploads_wait": True}
+    nearly = rng.choice([2, 3, 4])
+    per = rng.choice([25000, 33000, 60000])
+    reqs, by_tag, uploads = [], {}, {}
+    blob = bytearray(client_preface(fb, rspec))
+
+    def add(tag, sid, size, early):
+        req = G.gen_request(rng, tag, "2", tier, body_sizes=[size], methods=["POST"])
+        req["sid"] = sid
+        req["complete"] = not early
+        req["pad"] = 0
+        reqs.append(req)
+        by_tag[str(tag)] = [["respond", 200, [(b"x-early", b"1")], b"early"]] if early else [["recv_until_end"], ["respond", 200, [], b"late"]]
+        target = req["path"] + (b"?" + req["query"] if req["query"] is not None else b"")
+        nonlocal blob
+        blob += fb.headers(sid, [(b":method", b"POST"), (b":scheme", b"http"), (b":path", target), (b":authority", req["authority"])]
+                           + list(req["headers"]), end_stream=False)
+        q, off = [], 0
+        while off < size:
+            k = min(16000, size - off)
+            q.append([fb.data(sid, req["body"][off:off + k], end_stream=(off + k >= size)), k])
+            off += k
+        uploads[sid] = q
+
+    for i in range(nearly):
+        add(n * 10 + i, 1 + 2 * i, per, True)
+    add(n * 10 + 9, 1 + 2 * nearly, rng.choice([30000, 50000, 70000]), False)
+    rspec["uploads"] = uploads
+    client = [["feed", bytes(blob)], ["settle"], ["react", "pump"], ["settle"]]
+    return {"family": "h2.late-data-then-upload", "backends": ["asyncio", "trio"], "config": {"keep_alive_timeout": 5}, "conn": {},
+            "apps": {"default": [["recv_until_end"], ["respond", 200, [], b"d"]], "by_tag": by_tag}, "client": client, "reactor": rspec,
+            "truth": {"requests": reqs, "paces": ["early"] * nearly + ["eager"]}, "sched": {"seed": rng.randrange(1 << 30)}}
+
+
 def gen_cases(rng, tier):
     n = N_CASES[tier]
     # exhaustive 2-way split sweep of a few short requests
@@ -160,6 +198,8 @@ def gen_cases(rng, tier):
     for i in range(n):
         if i < sweep:
             yield _case_h1(rng, tier, i, exhaustive_split=i)
+        elif i % 40 == 7:
+            yield _case_h2_late_data(rng, tier, i)
         elif rng.random() < 0.55:
             yield _case_h1(rng, tier, i)
         else:
